@@ -336,6 +336,62 @@ def c14_c(ctx):
               'with the model this one was copied from'.format(
                   src(inplace[0])[:60] if inplace else ''), fn=oset,
               node=inplace[0] if inplace else oset.node)
+    # node-level state kept *outside* attr_dict: containers that node classes modify in place
+    # (append / item assignment on self.state[K]) are shared by nx.DiGraph(G) as well
+    keys = {}
+    for f in ctx.repo.module('elfi.model.elfi_model').all_functions:
+        fnode = getattr(f, 'node', None)
+        if fnode is None or isinstance(fnode, ast.Lambda):
+            continue
+        for n in own_nodes(fnode):
+            tgt = None
+            if isinstance(n, ast.Call) and isinstance(n.func, ast.Attribute) and \
+                    n.func.attr in ('append', 'extend', 'insert', 'pop', 'update', 'clear',
+                                    'remove', 'setdefault'):
+                tgt = n.func.value
+            elif isinstance(n, (ast.Assign, ast.AugAssign)):
+                t0 = n.targets[0] if isinstance(n, ast.Assign) else n.target
+                if isinstance(t0, ast.Subscript):
+                    tgt = t0.value
+            if isinstance(tgt, ast.Subscript) and isinstance(tgt.value, ast.Attribute) and \
+                    tgt.value.attr == 'state' and isinstance(tgt.value.value, ast.Name) and \
+                    tgt.value.value.id == 'self' and isinstance(tgt.slice, ast.Constant) and \
+                    tgt.slice.value != 'attr_dict':
+                keys.setdefault(tgt.slice.value, []).append((f, n))
+    if keys:
+        own_all = False
+        explicit_all = set()
+        for m in copies:
+            ex = ctx.ex(m)
+            for lo in [x for x in own_nodes(m.node) if isinstance(x, ast.For)]:
+                it = ex.term(lo.iter, cfg_of(m).by_stmt[id(lo)])
+                if not (contains(it, '_.source_net.nodes(*_)') or contains(it, '_.source_net.nodes')
+                        or contains(it, '_.source_net')):
+                    continue
+                for inner in [x for x in ast.walk(lo) if isinstance(x, ast.For) and x is not lo]:
+                    for a in ast.walk(inner):
+                        if isinstance(a, ast.Assign) and isinstance(a.targets[0], ast.Subscript) \
+                                and isinstance(a.value, ast.Call) and \
+                                callee_name(a.value) in ('deepcopy', 'copy') and \
+                                ex.term(a.targets[0].slice)[0] in ('elem', 'item'):
+                            own_all = True
+                explicit = set()
+                for a in ast.walk(lo):
+                    if isinstance(a, ast.Assign) and isinstance(a.targets[0], ast.Subscript) and \
+                            isinstance(a.targets[0].slice, ast.Constant) and \
+                            isinstance(a.value, ast.Call) and \
+                            callee_name(a.value) in ('deepcopy', 'copy', 'list', 'dict'):
+                        explicit.add(a.targets[0].slice.value)
+                explicit_all |= explicit
+        for key in sorted(keys, key=str):
+            (f0, n0) = keys[key][0]
+            ctx.check(deep or own_all or key in explicit_all, gm.qname + '.copy',
+                      'node-level state `{}` owned by the copy'.format(key),
+                      'copy() re-creates self.state[{!r}] for the copy'.format(key),
+                      '{} modifies self.state[{!r}] in place (`{}`) but copy() shares that '
+                      'container with the original: adapting the copy changes the original'
+                      .format(f0.qname.split(':')[-1], key, src(n0)[:50]), fn=copies[-1],
+                      node=copies[-1].node)
     # the copy is a new graph object, not the same one
     g = gm.methods.get('copy')
     if g is not None:
